@@ -17,8 +17,7 @@ from decimal import Decimal, Context
 from typing import cast, Any, TypeVar, Union
 
 from elementpath.aliases import XPathParserType
-from elementpath.helpers import MONTH_DAYS_LEAP, MONTH_DAYS, DAYS_IN_4Y, \
-    DAYS_IN_100Y, DAYS_IN_400Y, days_from_common_era, adjust_day, \
+from elementpath.helpers import MONTH_DAYS_LEAP, MONTH_DAYS, \
     normalized_seconds, months2days, round_number, LazyPattern
 from .any_types import AnyAtomicType
 from .untyped import UntypedAtomic
@@ -26,10 +25,43 @@ from .untyped import UntypedAtomic
 ###
 # Constants for base delta operations
 _ZERO_DELTA = datetime.timedelta(0)
+
 _1DAY_DELTA = datetime.timedelta(days=1)
 _REF_DATETIME = datetime.datetime(1, 1, 1)
 _MAX_OFFSET = datetime.timedelta(hours=14, minutes=0)
 _MIN_OFFSET = datetime.timedelta(hours=-14, minutes=0)
+
+
+def _astronomical_year(year: int) -> int:
+    """
+    Converts a year of the internal numbering, that has no year zero (-1 is 1 BCE),
+    to the astronomical year numbering (0 is 1 BCE) of the proleptic Gregorian calendar.
+    """
+    return year if year > 0 else year + 1
+
+
+def _days_from_civil(year: int, month: int, day: int) -> int:
+    """Days from 0001-01-01 for a date with an astronomical year, that can be negative."""
+    year -= month <= 2
+    era = year // 400
+    yoe = year - era * 400
+    doy = (153 * (month + (-3 if month > 2 else 9)) + 2) // 5 + day - 1
+    doe = yoe * 365 + yoe // 4 - yoe // 100 + doy
+    return era * 146097 + doe - 306
+
+
+def _civil_from_days(days: int) -> tuple[int, int, int]:
+    """The inverse of _days_from_civil(): returns the astronomical year, the month and the day."""
+    days += 306
+    era = days // 146097
+    doe = days - era * 146097
+    yoe = (doe - doe // 1460 + doe // 36524 - doe // 146096) // 365
+    doy = doe - (365 * yoe + yoe // 4 - yoe // 100)
+    mp = (5 * doy + 2) // 153
+    day = doy - (153 * mp + 2) // 5 + 1
+    month = mp + (3 if mp < 10 else -9)
+    return yoe + era * 400 + (month <= 2), month, day
+
 
 __all__ = ['Timezone', 'AbstractDateTime', 'DateTime', 'GregorianDay',
            'GregorianMonth', 'GregorianYear', 'GregorianMonthDay',
@@ -195,15 +227,22 @@ class AbstractDateTime(AnyAtomicType):
         elif abs(year) > 2 ** 31:
             raise OverflowError("year overflow")
         else:
+            # Use a proxy year for the datetime object: 4 for leap years, 6 otherwise.
+            # The year has no zero (-1 is 1 BCE, a leap year) for both XSD versions.
             self._year = year
-            if isleap(year + bool(self._xsd_version != '1.0')):
-                self._dt = datetime.datetime(4, month, day, hour, minute,
-                                             second, microsecond, tzinfo)
-            else:
-                self._dt = datetime.datetime(6, month, day, hour, minute,
-                                             second, microsecond, tzinfo)
+            proxy_year = 4 if isleap(_astronomical_year(year)) else 6
+            self._dt = datetime.datetime(proxy_year, month, day, hour, minute,
+                                         second, microsecond, tzinfo)
             if delta:
                 self._dt += delta
+                if self._dt.year != proxy_year:
+                    # 24:00:00 of the last day of the year
+                    self._year = year = 1 if year == -1 else year + 1
+                    if 1 <= year <= 9999:
+                        self._dt = self._dt.replace(year=year)
+                    else:
+                        proxy_year = 4 if isleap(_astronomical_year(year)) else 6
+                        self._dt = self._dt.replace(year=proxy_year)
 
     def __repr__(self) -> str:
         fields = self.pattern.groupindex.keys()
@@ -312,20 +351,16 @@ class AbstractDateTime(AnyAtomicType):
                 return value
 
             case YearMonthDuration():
-                month = op(self._dt.month - 1, other.months) % 12 + 1
-                year = self._year + op(self._dt.month - 1, other.months) // 12
-                day = adjust_day(year, month, self._dt.day)
+                # Count the months on the astronomical year numbering, that has the year zero
+                months = op(_astronomical_year(self._year) * 12 + self._dt.month - 1, other.months)
+                astro_year, month = months // 12, months % 12 + 1
+                month_days = MONTH_DAYS_LEAP if isleap(astro_year) else MONTH_DAYS
 
-                if year > 0:
-                    dt = self._dt.replace(year=year, month=month, day=day)
-                elif isleap(year):
-                    dt = self._dt.replace(year=4, month=month, day=day)
-                else:
-                    dt = self._dt.replace(year=6, month=month, day=day)
-
-                kwargs = {k: getattr(dt, k) for k in self.pattern.groupindex.keys()}
-                if year <= 0:
-                    kwargs['year'] = year
+                kwargs = {k: getattr(self._dt, k) for k in self.pattern.groupindex.keys()}
+                kwargs['year'] = astro_year if astro_year > 0 else astro_year - 1
+                kwargs['month'] = month
+                if 'day' in kwargs:
+                    kwargs['day'] = min(self._dt.day, month_days[month])
                 return type(self)(**kwargs)
 
             case _:
@@ -343,14 +378,9 @@ class AbstractDateTime(AnyAtomicType):
     def iso_year(self) -> str:
         """The ISO string representation of the year field."""
         year = self.year
-        if -9999 <= year < -1:
-            return '{:05}'.format(year if self._xsd_version == '1.0' else year + 1)
-        elif year == -1:
-            return '-0001' if self._xsd_version == '1.0' else '0000'
-        elif 0 <= year <= 9999:
-            return '{:04}'.format(year)
-        else:
-            return str(year)
+        if year < 0 and self._xsd_version != '1.0':
+            year += 1  # XSD 1.1 has the year zero
+        return '{:05}'.format(year) if year < 0 else '{:04}'.format(year)
 
     @property
     def month(self) -> int:
@@ -479,45 +509,10 @@ class AbstractDateTime(AnyAtomicType):
         try:
             dt = _REF_DATETIME + delta
         except OverflowError:
-            days = delta.days
-            if days > 0:
-                y400, days = divmod(days, DAYS_IN_400Y)
-                y100, days = divmod(days, DAYS_IN_100Y)
-                y4, days = divmod(days, DAYS_IN_4Y)
-                y1, days = divmod(days, 365)
-                year = y400 * 400 + y100 * 100 + y4 * 4 + y1 + 1
-                if y1 == 4 or y100 == 4:
-                    year -= 1
-                    days = 365
-
-                td = datetime.timedelta(days=days, seconds=delta.seconds,
-                                        microseconds=delta.microseconds)
-                dt = datetime.datetime(4 if isleap(year) else 6, 1, 1) + td
-
-            elif days >= -366:
-                year = -1
-                td = datetime.timedelta(days=days, seconds=delta.seconds,
-                                        microseconds=delta.microseconds)
-                dt = datetime.datetime(5, 1, 1) + td
-
-            else:
-                days = -days - 366
-                y400, days = divmod(days, DAYS_IN_400Y)
-                y100, days = divmod(days, DAYS_IN_100Y)
-                y4, days = divmod(days, DAYS_IN_4Y)
-                y1, days = divmod(days, 365)
-                year = -y400 * 400 - y100 * 100 - y4 * 4 - y1 - 2
-                if y1 == 4 or y100 == 4:
-                    year += 1
-                    days = 365
-
-                td = datetime.timedelta(days=-days, seconds=delta.seconds,
-                                        microseconds=delta.microseconds)
-                if not td:
-                    dt = datetime.datetime(4 if isleap(year + 1) else 6, 1, 1)
-                    year += 1
-                else:
-                    dt = datetime.datetime(5 if isleap(year + 1) else 7, 1, 1) + td
+            astro_year, month, day = _civil_from_days(delta.days)
+            year = astro_year if astro_year > 0 else astro_year - 1
+            dt = datetime.datetime(4 if isleap(astro_year) else 6, month, day) + \
+                datetime.timedelta(seconds=delta.seconds, microseconds=delta.microseconds)
         else:
             year = dt.year
 
@@ -546,18 +541,15 @@ class AbstractDateTime(AnyAtomicType):
             else:
                 return self._dt - _REF_DATETIME.replace(tzinfo=_UTC_TIMEZONE)
 
-        year, dt = self.year, self._dt
-        tzinfo = None if dt.tzinfo is None else _UTC_TIMEZONE
-
-        if year > 0:
-            m_days = MONTH_DAYS_LEAP if isleap(year) else MONTH_DAYS
-            days = days_from_common_era(year - 1) + sum(m_days[m] for m in range(1, dt.month))
-        else:
-            m_days = MONTH_DAYS_LEAP if isleap(year + 1) else MONTH_DAYS
-            days = days_from_common_era(year) + sum(m_days[m] for m in range(1, dt.month))
-
-        delta = (dt - datetime.datetime(dt.year, dt.month, day=1, tzinfo=tzinfo))
-        return datetime.timedelta(days=days, seconds=delta.total_seconds())
+        dt = self._dt
+        delta = datetime.timedelta(
+            days=_days_from_civil(_astronomical_year(self._year), dt.month, dt.day),
+            seconds=dt.hour * 3600 + dt.minute * 60 + dt.second,
+            microseconds=dt.microsecond
+        )
+        if dt.tzinfo is not None:
+            delta -= dt.tzinfo.utcoffset(None) or _ZERO_DELTA
+        return delta
 
 
 class DateTime(AbstractDateTime):
@@ -1259,7 +1251,8 @@ class DayTimeDuration(Duration):
     @classmethod
     def fromtimedelta(cls, td: datetime.timedelta) -> 'DayTimeDuration':
         # A negative timedelta has negative days and non-negative seconds and microseconds
-        return cls(seconds=Decimal(td.days * 86400 + td.seconds) + Decimal(td.microseconds) / 1000000)
+        seconds = Decimal(td.days * 86400 + td.seconds) + Decimal(td.microseconds) / 1000000
+        return cls(seconds=seconds)
 
     def __init__(self, seconds: Union[Decimal, int] = 0) -> None:
         """
